@@ -329,6 +329,45 @@ void vf_violation(const char *key, const char *fmt, ...)
 static long a_live, a_total, a_fail_at, a_failed;
 void (*vf_alloc_hook)(int is_free);
 
+/* guard mode: every block ends (up to 7 bytes of alignment slack) right before an inaccessible page, so that
+ * over-reads and over-writes by code the sanitizers do not instrument (libgnutls, libcrypto, libjansson) fault too */
+static int a_guard;
+#define GUARD_MAGIC 0x6775617264ULL
+struct ghdr {
+	uint64_t magic;
+	size_t maplen;
+};
+static void *guard_alloc(size_t n)
+{
+	size_t pg = 4096, need = (n + 7) & ~(size_t)7;
+	size_t maplen = ((need + sizeof(struct ghdr) + pg - 1) / pg) * pg + pg;
+	char *m = mmap(NULL, maplen, PROT_READ | PROT_WRITE, MAP_PRIVATE | MAP_ANONYMOUS, -1, 0);
+	if (m == MAP_FAILED)
+		return NULL;
+	mprotect(m + maplen - pg, pg, PROT_NONE);
+	char *user = m + maplen - pg - need;
+	struct ghdr *h = (struct ghdr *)m;
+	h->magic = GUARD_MAGIC;
+	h->maplen = maplen;
+	return user;
+}
+static int guard_free(void *p)
+{
+	char *m = (char *)((uintptr_t)p & ~(uintptr_t)4095);
+	/* the header sits at the start of the mapping: walk back page by page (blocks are rarely larger than a few pages) */
+	for (int i = 0; i < 64; i++, m -= 4096) {
+		struct ghdr *h = (struct ghdr *)m;
+		if (h->magic == GUARD_MAGIC && m + h->maplen > (char *)p) {
+			munmap(m, h->maplen);
+			return 1;
+		}
+		if ((char *)p - m > (64 << 12))
+			break;
+	}
+	return 0;
+}
+void vf_alloc_guard(int on) { a_guard = on; }
+
 static void *vf_malloc(size_t n)
 {
 	if (vf_alloc_hook)
@@ -338,7 +377,7 @@ static void *vf_malloc(size_t n)
 		a_failed++;
 		return NULL;
 	}
-	void *p = malloc(n ? n : 1);
+	void *p = a_guard ? guard_alloc(n ? n : 1) : malloc(n ? n : 1);
 	if (p)
 		a_live++;
 	return p;
@@ -349,6 +388,8 @@ static void vf_free(void *p)
 		vf_alloc_hook(1);
 	if (p)
 		a_live--;
+	if (p && a_guard && guard_free(p))
+		return;
 	free(p);
 }
 void vf_alloc_install(void) { jwt_set_alloc(vf_malloc, vf_free); }
